@@ -105,6 +105,7 @@ func runC10(r *Report, p *Program) {
 	c10R4(h)
 	c10R5(h)
 	c10R6(h)
+	c10R7(h)
 }
 
 // c10R6: the cursor protocol that the parser's exceptions rest on.
@@ -577,10 +578,14 @@ func firstPos(b *ssa.BasicBlock) token.Pos {
 	return token.NoPos
 }
 
-func c10R5(h H) {
+func c10R5(h H) { lineCountingRule(h, "R5") }
+
+// lineCountingRule: the lexer counts every line break it consumes (C10 R5; C09 registers the same obligations — the
+// parser and the dispenser tell where a directive line ends from these numbers).
+func lineCountingRule(h H, rule string) {
 	r := h.r
-	r.Rule("R5", "line counting: in lexer.next every path from a successful ReadRune to the next ReadRune or to a return passes a test of the rune against '\\n' — unless it takes an edge that excludes '\\n' (rune == another constant, !unicode.IsSpace) — and the equal-'\\n' edge passes an increment of lexer.line", 2)
-	fn := h.fn("R5", cfPkg, "(*lexer).next")
+	r.Rule(rule, "line counting: in lexer.next every path from a successful ReadRune to the next ReadRune or to a return passes a test of the rune against '\\n' — unless it takes an edge that excludes '\\n' (rune == another constant, !unicode.IsSpace) — and the equal-'\\n' edge passes an increment of lexer.line", 2)
+	fn := h.fn(rule, cfPkg, "(*lexer).next")
 	if fn == nil {
 		return
 	}
@@ -595,7 +600,7 @@ func c10R5(h H) {
 		}
 	})
 	if read == nil {
-		r.Unresolve("R5", "lexer.next: ReadRune call not found")
+		r.Unresolve(rule, "lexer.next: ReadRune call not found")
 		return
 	}
 	isCh := func(v ssa.Value) bool {
@@ -637,7 +642,7 @@ func c10R5(h H) {
 		}
 		return true
 	})
-	r.Check(len(nlTests) > 0 && bad == "", "R5", "casketfile.(*lexer).next/newline-test-unavoidable", read.Pos(), "no consumed rune can be a line break without being tested for it (in quoted, escaped, comment and plain state alike)", "reaches "+bad+" without a '\\n' test")
+	r.Check(len(nlTests) > 0 && bad == "", rule, "casketfile.(*lexer).next/newline-test-unavoidable", read.Pos(), "no consumed rune can be a line break without being tested for it (in quoted, escaped, comment and plain state alike)", "reaches "+bad+" without a '\\n' test")
 	inc := func(in ssa.Instruction) bool {
 		st, ok := in.(*ssa.Store)
 		if !ok {
@@ -680,5 +685,5 @@ func c10R5(h H) {
 			okInc = false
 		}
 	}
-	r.Check(okInc, "R5", "casketfile.(*lexer).next/newline-increments-line", read.Pos(), "every rune found to be '\\n' increments the line counter before the next rune is read")
+	r.Check(okInc, rule, "casketfile.(*lexer).next/newline-increments-line", read.Pos(), "every rune found to be '\\n' increments the line counter before the next rune is read")
 }
